@@ -66,6 +66,9 @@ def parse(text):
     try:
         return parser.BQLParser().parse(text, semantics=BQLSemantics())
     except tatsu.exceptions.ParseError as exc:
+        if not exc.tokenizer.text:
+            # There is no location to report in an empty statement.
+            raise ParseError(None) from exc
         line = exc.tokenizer.line_info(exc.pos).line
         parseinfo = tatsu.infos.ParseInfo(exc.tokenizer, exc.item, exc.pos, exc.pos + 1, line, [])
         raise ParseError(parseinfo) from exc
